@@ -100,7 +100,7 @@ Proof.
     + cbn [v_pcm v_dec v_link v_hs set_pcm set_dec]. rewrite Hout', Hhs, Z.shiftl_0_r.
       destruct Hg as [Hg|Hg]; [lia|]. fold l. rewrite Hg.
       replace (li_init l + here + stp - li_init l) with (here + stp) by lia.
-      destruct (here + stp <? 0) eqn:E; [lia|]. unfold here. repeat split; lia.
+      destruct (here + stp <? 0) eqn:E; [lia|]. destruct (here + stp - stp <? 0) eqn:E2; [lia|]. unfold here. repeat split; lia.
     + cbn [v_pcm v_dec v_link v_hs set_dec]. repeat split; try reflexivity. exact Hout'.
 Qed.
 
@@ -162,14 +162,11 @@ Proof.
     destruct ((d_seq d =? -1) || negb (d_seq d + 1 =? v_pno s)) eqn:El; [lia|].
     (* the state after the packet *)
     unfold feed, process_audio. fold c d b. rewrite Eb.
-    set (s1 := if negb (pk_gran p =? -1) && negb (pk_eos p)
-               then set_pcm (set_dec s d') ((if pk_gran p - li_init (cur_link s) <? 0 then 0 else pk_gran p - li_init (cur_link s)) -
-                                            Z.shiftl (dec_pcmout d') (v_hs s) + base_of s (v_link s))
-               else set_dec s d').
+    set (s1 := if negb (pk_gran p =? -1) && negb (pk_eos p) then _ else set_dec s d').
     assert (v_pcm s1 = v_pcm s /\ v_dec s1 = d' /\ v_link s1 = v_link s /\ v_links s1 = v_links s /\ v_hs s1 = v_hs s) as (P1 & P2 & P3 & P4 & P5).
     { unfold s1. destruct (negb (pk_gran p =? -1) && negb (pk_eos p)) eqn:Eg; cbn; repeat split; try reflexivity.
       rewrite Hout', Hhs, Z.shiftl_0_r. destruct Hg as [Hg|Hg]; [lia|]. fold l. rewrite Hg. fold stp.
-      destruct (li_init l + here + stp - li_init l <? 0) eqn:E; lia. }
+      destruct (li_init l + here + stp - li_init l <? 0) eqn:E; [lia|]. destruct (li_init l + here + stp - li_init l - stp <? 0) eqn:E2; lia. }
     unfold drain. cbn [v_dec v_pcm set_q]. rewrite P2.
     unfold dec_read. rewrite Hout'.
     destruct (negb (stp =? 0) && (d_ret d' + stp >? d_cur d')) eqn:Er; [lia|].
